@@ -326,7 +326,8 @@ def run(c):
                   "oracles as Section variables: z_repr (Python str(int)), float_parse (Python float(str)), isalnum_char (str.isalnum per ASCII character); "
                   "C16_number assumes their results are numeric literals (premises of the theorem)",
                   "sqlglot 27.12 tokenizer/parser and DuckDB 1.3.2 as oracles for 'one literal' and 'round-trips as data' on the implementation's output",
-                  "modelled, not verified: Model/SqlLex.v (string-literal lexer, numeric_literal) is hand-written; ParameterSet.interpolate, the Jinja switch and the "
+                  "modelled, not verified: Model/SqlLex.v (string-literal lexer, numeric_literal) is hand-written; Model/Interp.v (one-pass placeholder substitution) is tied to "
+                  "ParameterSet.interpolate by the regenerated behaviour table (translator/pyinterp.py + gen_interp.py, scripted re / template modules); the Jinja switch and the "
                   "relative-date pass are exercised end to end only"]
     c.assumptions += ["the MODEL's values are None/bool/int/float/str; values of other standard-library types (Fraction, Decimal, complex, containers, bytes, dates) are checked on the implementation only; objects whose own __str__/__bool__ is adversarial code are outside the universe", "non-ASCII values are outside the model's isalnum oracle (unquoted type); they are still checked on the implementation"]
     gen_ok = True
@@ -336,6 +337,14 @@ def run(c):
     except Exception as e:
         gen_ok = False
         c.obligation("translator:Params_gen", False, "translator", "translation failed: %r" % (e,))
+    try:
+        from translator import gen_interp
+        lib.write_if_changed(os.path.join(lib.COQ, "Gen", "Interp_gen.v"), gen_interp.generate(lib.REPO))
+        c.obligation("translator: behaviour table of ParameterSet.interpolate / format / get (40 scripted templates x values) regenerated", True, "translator")
+        same = gen_interp.rows(lib.REPO) == gen_interp.real_rows(lib.REPO)
+        c.obligation("translator validation: interpreted interpolate == the real method under CPython on the same scenarios", same, "translator")
+    except Exception as e:
+        c.obligation("translator: behaviour table of ParameterSet.interpolate regenerated", False, "translator", repr(e)[-900:])
     if gen_ok:
         c.build_props()
     vals = corpus(c.rng, 150 if c.tier == "quick" else 3000)
